@@ -640,7 +640,7 @@ def _t(ctx, what):
 def run(ctx):
     rng = ctx.rng
     quick = ctx.tier == "quick"
-    _gen.regen(ctx, ["Dict"])      # Gen/Dict.v regenerated from the source + Properties_Gen_C16.v (tools/ctrans.py)
+    _gen.regen(ctx, ["Dict", "Hash"])      # Gen/Dict.v regenerated from the source + Properties_Gen_C16.v (tools/ctrans.py)
     pr = ctx.coq_properties("Properties/Properties_C16.v")
     exe = ctx.link("c16_dict", ["c16_dict.c"], exclude=["ds/dictionary/dictionary_shavit.c"])
     drv = ctx.model_driver("c16_driver")
